@@ -95,7 +95,15 @@ class StmtMixin:
 
     def ev_exc_fields(self, call, st):
         """Keyword arguments of an exception constructor that name data (key=, position=, query=, store=)."""
-        kws = [k for k in call.keywords if k.arg in ("key", "position", "query", "store")]
+        kws = []
+        for k in call.keywords:
+            if k.arg not in ("key", "position", "query", "store"):
+                continue
+            try:        # a field whose expression the engine cannot evaluate is dropped on its own, the others are kept
+                list(self.ev(k.value, st.clone()))
+                kws.append(k)
+            except Unsupported:
+                pass
         for st1, vs in self.ev_list([k.value for k in kws], st):
             if isinstance(vs, Raise):
                 continue
@@ -485,6 +493,25 @@ class StmtMixin:
                 keys = Val(TSet(base.ty.key), [base.terms[0]])
                 yield from self.loop_with_invariant(node, st1, kind="for", iterable=keys, items_of=base)
             return
+        en = self._enumerate_pattern(it_node)
+        if en is not None:
+            # `for i, x in enumerate(S)` / `for i, x in list(enumerate(S))[k:]`: the suffix of S from k, bound as (k + position, element)
+            seq_node, start_node = en
+            for st1, vs in self.ev_list([seq_node] + ([start_node] if start_node is not None else []), st):
+                if isinstance(vs, Raise):
+                    yield st1, ("raise", vs.exc)
+                    continue
+                seq = vs[0]
+                if not (isinstance(seq, Val) and isinstance(seq.ty, TSeq)):
+                    raise Unsupported("enumerate over %r" % (seq,), node)
+                k = vs[1].t if start_node is not None else z3.IntVal(0)
+                n = z3.Length(seq.t)
+                k = z3.If(k < 0, z3.IntVal(0), z3.If(k > n, n, k))        # list slicing clips (non-negative start only)
+                if start_node is not None:
+                    self.check(st1, vs[1].t >= 0, "safe", "non-negative-slice-start", node)
+                suffix = Val(seq.ty, [z3.SubSeq(seq.t, k, n - k)])
+                yield from self.loop_with_invariant(node, st1, kind="for", iterable=suffix, enum_from=k)
+            return
         for st1, it in self.ev(node.iter, st):
             if isinstance(it, Raise):
                 yield st1, ("raise", it.exc)
@@ -498,6 +525,21 @@ class StmtMixin:
                 yield from self.loop_with_invariant(node, st1, kind="for", iterable=it.seq, reverse=True)
             else:
                 yield from self.loop_with_invariant(node, st1, kind="for", iterable=it)
+
+    @staticmethod
+    def _enumerate_pattern(it):
+        def is_enum(c):
+            return isinstance(c, ast.Call) and isinstance(c.func, ast.Name) and c.func.id == "enumerate" and len(c.args) == 1 and not c.keywords
+        if is_enum(it):
+            return it.args[0], None
+        if isinstance(it, ast.Call) and isinstance(it.func, ast.Name) and it.func.id == "list" and len(it.args) == 1 and is_enum(it.args[0]):
+            return it.args[0].args[0], None
+        if isinstance(it, ast.Subscript) and isinstance(it.slice, ast.Slice) and it.slice.upper is None and it.slice.step is None \
+                and it.slice.lower is not None:
+            inner = StmtMixin._enumerate_pattern(it.value) if hasattr(StmtMixin, "_enumerate_pattern") else None
+            if inner is not None and inner[1] is None:
+                return inner[0], it.slice.lower
+        return None
 
     def _unrolled(self, node, items, st):
         if not items:
